@@ -24,6 +24,9 @@ let rec parse_ops toks = match toks with
   | "slen" :: h :: l :: r -> OpSetLen (ni h, ni l) :: parse_ops r
   | "cpy" :: h :: g :: r -> OpCopy (ni h, ni g) :: parse_ops r
   | "mov" :: h :: g :: r -> OpMove (ni h, ni g) :: parse_ops r
+  | "itest" :: _ :: _ :: _ :: r -> OpNop :: parse_ops r
+  | "uins" :: h :: p :: r -> OpUInsert (ni h, ni p) :: parse_ops r
+  | "ures" :: h :: n :: r -> OpUResize (ni h, ni n) :: parse_ops r
   | t :: _ -> failwith ("bad op " ^ t)
 
 let err_name = function
